@@ -315,6 +315,134 @@ fn askjoin(rep: &mut Report) {
     });
 }
 
+// ------------------------------------------------------------------------------------------------ cancelled sends
+/// a send that is still waiting for a mailbox slot is cancelled by its caller (the future is dropped): it has
+/// not been accepted, so it is never delivered, it leaves no trace in the mailbox or in any handle, and later
+/// operations - a later stop() in particular - behave as if it had never been issued
+struct Cx {
+    log: Arc<Mutex<Vec<String>>>,
+}
+impl Actor for Cx {
+    type Args = Arc<Mutex<Vec<String>>>;
+    type Error = String;
+    async fn on_start(a: Self::Args, _: &ActorRef<Self>) -> Result<Self, String> {
+        Ok(Cx { log: a })
+    }
+    async fn on_stop(&mut self, _: &ActorWeak<Self>, killed: bool) -> Result<(), String> {
+        self.log.lock().unwrap().push(format!("stop {killed}"));
+        Ok(())
+    }
+}
+impl Message<Gate> for Cx {
+    type Reply = ();
+    async fn handle(&mut self, m: Gate, _: &ActorRef<Self>) {
+        let _ = m.0.await;
+    }
+}
+impl Message<Item> for Cx {
+    type Reply = u32;
+    async fn handle(&mut self, m: Item, _: &ActorRef<Self>) -> u32 {
+        self.log.lock().unwrap().push(format!("h {}", m.0));
+        m.0
+    }
+}
+
+fn cancel(rep: &mut Report) {
+    let rt = tokio::runtime::Builder::new_current_thread().enable_time().build().unwrap();
+    let mut cases = 0u64;
+    rt.block_on(async {
+        for what in ["stop", "tell", "ask"] {
+            for second in ["same", "clone", "upgraded", "control"] {
+                if what != "stop" && second != "same" {
+                    continue;
+                }
+                cases += 1;
+                note(format!("cancel: a {what}() waiting for a slot of a full capacity-1 mailbox is dropped by its caller; a later stop() is issued through {second}"));
+                let log = Arc::new(Mutex::new(vec![]));
+                let (r, jh) = spawn_with_mailbox_capacity::<Cx>(log.clone(), 1);
+                let (gtx, grx) = tokio::sync::oneshot::channel();
+                r.tell(Gate(grx)).await.unwrap();
+                tokio::task::yield_now().await; // the handler is running, parked at its gate
+                r.tell(Item(1)).await.unwrap(); // the mailbox is full
+                let cancelled = match what {
+                    "stop" => tokio::time::timeout(Duration::from_millis(20), r.stop()).await.is_err(),
+                    "tell" => tokio::time::timeout(Duration::from_millis(20), r.tell(Item(50))).await.is_err(),
+                    _ => tokio::time::timeout(Duration::from_millis(20), r.ask(Item(50))).await.is_err(),
+                };
+                if !cancelled {
+                    rep.v("C09", format!("cancel({what}): a send into a full capacity-1 mailbox (actor parked in a handler, one message queued) completed within 20 ms instead of waiting for a slot"));
+                    let _ = r.kill();
+                    continue;
+                }
+                let _ = gtx.send(());
+                // barrier: everything accepted so far has been handled
+                let two = tokio::time::timeout(Duration::from_secs(5), r.ask(Item(2))).await;
+                if !matches!(two, Ok(Ok(2))) {
+                    rep.v("C03 C01", format!("cancel({what}): after the cancelled send an ask to the live actor returned {two:?}"));
+                    let _ = r.kill();
+                    continue;
+                }
+                // the cancelled operation was never accepted: it is never delivered, and it holds no slot
+                let room = tokio::time::timeout(Duration::from_secs(5), r.tell(Item(3))).await;
+                if !matches!(room, Ok(Ok(()))) {
+                    rep.v("C09", format!("cancel({what}): with an idle actor and an empty mailbox a tell returned {room:?}: the cancelled send still occupies the mailbox"));
+                }
+                let _ = tokio::time::timeout(Duration::from_secs(5), r.ask(Item(4))).await;
+                let l = log.lock().unwrap().clone();
+                if l.iter().any(|x| x == "h 50") {
+                    rep.v("C01", format!("cancel({what}): the send was cancelled before the mailbox accepted it (its caller saw no Ok), yet its message was handled; log {l:?}"));
+                }
+                if what == "stop" && l.iter().any(|x| x.starts_with("stop")) {
+                    rep.v("C02 C07", format!("cancel(stop): the stop() call was cancelled before its request was accepted, yet the actor stopped; log {l:?}"));
+                    continue;
+                }
+                // a later stop(), through any kind of handle, stops the actor
+                let weak = ActorRef::downgrade(&r);
+                let res = match second {
+                    "same" => tokio::time::timeout(Duration::from_secs(5), r.stop()).await,
+                    "clone" => {
+                        let c = r.clone();
+                        tokio::time::timeout(Duration::from_secs(5), c.stop()).await
+                    }
+                    "upgraded" => {
+                        let u = ActorWeak::upgrade(&weak).expect("live actor upgrades");
+                        tokio::time::timeout(Duration::from_secs(5), u.stop()).await
+                    }
+                    _ => {
+                        let c: Box<dyn rsactor::ActorControl> = Box::new(r.clone());
+                        tokio::time::timeout(Duration::from_secs(5), c.stop()).await
+                    }
+                };
+                if !matches!(res, Ok(Ok(()))) {
+                    rep.v("C02 C03", format!("cancel({what}): a later stop() through {second} returned {res:?}"));
+                }
+                // accepted after stop() returned: never handled
+                let after = r.tell(Item(99)).await;
+                let ended = tokio::time::timeout(Duration::from_secs(5), jh).await;
+                let l = log.lock().unwrap().clone();
+                match ended {
+                    Ok(Ok(res)) => {
+                        if !res.is_completed() || res.was_killed() || !l.iter().any(|x| x == "stop false") {
+                            rep.v("C02 C05", format!("cancel({what}): after stop() through {second} the actor ended but not as a graceful stop (on_stop(killed=false), completed); log {l:?}"));
+                        }
+                    }
+                    _ => rep.v("C02 C07", format!("cancel({what}): stop() through {second} returned Ok(()) after an earlier {what}() had been cancelled while waiting for a mailbox slot, but the actor did not stop within 5 s (a tell sent afterwards returned {after:?}); log {l:?}")),
+                }
+                if l.iter().any(|x| x == "h 99") {
+                    rep.v("C02", format!("cancel({what}): a message sent after stop() (through {second}) had returned Ok was handled; log {l:?}"));
+                }
+                for must in ["h 1", "h 2", "h 3", "h 4"] {
+                    if !l.iter().any(|x| x == must) {
+                        rep.v("C02 C01", format!("cancel({what}): message `{must}` was accepted before stop() was called but never handled; log {l:?}"));
+                    }
+                }
+                let _ = r.kill();
+            }
+        }
+        rep.s("cancel", format!("cases={cases}"));
+    });
+}
+
 // ------------------------------------------------------------------------------------------------ late completion (real time)
 struct G {
     log: Arc<Mutex<Vec<u32>>>,
@@ -339,6 +467,14 @@ impl Message<Item> for G {
     async fn handle(&mut self, m: Item, _: &ActorRef<Self>) -> u32 {
         self.log.lock().unwrap().push(m.0);
         m.0
+    }
+}
+/// keeps the runtime thread busy (no await): tasks whose outcome is ready are not polled meanwhile
+struct Busy(u64);
+impl Message<Busy> for G {
+    type Reply = ();
+    async fn handle(&mut self, m: Busy, _: &ActorRef<Self>) {
+        std::thread::sleep(Duration::from_millis(m.0));
     }
 }
 
@@ -404,6 +540,57 @@ fn late(rep: &mut Report) {
                 }
                 let _ = r.kill();
             }
+        }
+        // the operation completes well before the deadline, but the caller is only polled after it: Ok, not Timeout
+        for use_ask in [false, true] {
+            cases += 1;
+            let log = Arc::new(Mutex::new(vec![]));
+            let (r, _jh) = spawn_with_mailbox_capacity::<G>(log.clone(), 4);
+            tokio::task::yield_now().await;
+            let r2 = r.clone();
+            let h = tokio::spawn(async move {
+                if use_ask {
+                    r2.ask_with_timeout(Item(7), Duration::from_millis(60)).await.map(|_| ())
+                } else {
+                    r2.tell_with_timeout(Item(7), Duration::from_millis(60)).await
+                }
+            });
+            // queued right behind it: a handler that occupies the only runtime thread for 200 ms
+            let r3 = r.clone();
+            let b = tokio::spawn(async move { r3.tell(Busy(200)).await });
+            let res = match tokio::time::timeout(Duration::from_secs(10), h).await {
+                Ok(Ok(x)) => x,
+                _ => {
+                    rep.v("C10", "a *_with_timeout(60 ms) call did not return within 10 s".into());
+                    continue;
+                }
+            };
+            let _ = b.await;
+            let handled = log.lock().unwrap().contains(&7);
+            if let Err(e) = &res {
+                rep.v("C10", format!("late(completed early, polled late; use_ask={use_ask}): the operation completed microseconds after the call (handled={handled}) and the runtime thread was then busy past the 60 ms deadline; the call reported {e:?} instead of Ok"));
+            }
+            let _ = r.kill();
+        }
+        // the same with the call made from the runtime's main task: when the actor's task finally yields, the run
+        // queue is empty, the time driver turns (the deadline timer fires) and only then is the caller polled - with
+        // both the reply and the expired timer in front of it
+        {
+            cases += 1;
+            let log = Arc::new(Mutex::new(vec![]));
+            let (r, _jh) = spawn_with_mailbox_capacity::<G>(log.clone(), 4);
+            tokio::task::yield_now().await;
+            let r3 = r.clone();
+            let b = tokio::spawn(async move { r3.tell(Busy(200)).await });
+            let t0 = Instant::now();
+            let res = r.ask_with_timeout(Item(9), Duration::from_millis(60)).await;
+            let el = t0.elapsed();
+            let _ = b.await;
+            let order = log.lock().unwrap().clone();
+            if let Err(e) = &res {
+                rep.v("C10", format!("late(reply sent early, asker polled late, call made from the main task): ask_with_timeout(60 ms) was answered at once (handled: {order:?}), the runtime thread was then busy for 200 ms; the call returned {e:?} after {el:?} instead of the reply that was already there"));
+            }
+            let _ = r.kill();
         }
         rep.s("late", format!("cases={cases}"));
     });
@@ -534,6 +721,9 @@ fn blocking(rep: &mut Report) {
         });
         calls += 12;
         let seq: Vec<u32> = log.lock().unwrap().iter().copied().filter(|x| (300..320).contains(x)).collect();
+        if sent != 12 {
+            rep.v("C17 C09", format!("a spawn_blocking sender issued 12 blocking_tell(.., None) to a live actor with a capacity-1 mailbox: only {sent} returned Ok (a blocking send into a full mailbox waits for a slot)"));
+        }
         if seq.windows(2).any(|w| w[0] >= w[1]) || seq.len() != sent {
             rep.v("C17 C02 C01", format!("a spawn_blocking sender issued blocking_tell 300..311 in sequence ({sent} returned Ok); handled: {seq:?} (must be the same messages in the same order)"));
         }
@@ -724,7 +914,8 @@ fn blocking(rep: &mut Report) {
         rt.block_on(async { let _ = tokio::time::timeout(Duration::from_secs(10), jh).await; });
         let handled = log.lock().unwrap().contains(&97);
         match (&res, handled) {
-            (Err(_), false) => {}
+            (Err(rsactor::Error::Receive { .. }), false) => {}
+            (Err(e), false) => rep.v("C17 C13", format!("blocking_ask(.., None) accepted by the mailbox and discarded when the actor was killed: returned {e:?}; ask reports this as Error::Receive (reply dropped), and the blocking variant follows the same error rules")),
             (Ok(()), true) => {}
             other => rep.v("C17 C03", format!("blocking_ask(U(97), None) (unit reply) on an actor killed with the request queued: returned {:?} and the handler {} (an Ok needs the handler to have run; a pending ask on an ended actor returns an error)", other.0, if handled { "ran" } else { "never ran" })),
         }
@@ -802,41 +993,51 @@ fn blocking(rep: &mut Report) {
         }
     }
     // (c2) from inside a single-threaded runtime that cannot make progress while the caller blocks: the call
-    //      still returns by its deadline (tell: the mailbox has room; ask: the actor cannot run, so Timeout)
-    {
-        note("blocking (c2): blocking_tell / blocking_ask with a timeout called directly from async code on a current_thread runtime".into());
+    //      still returns by its deadline (tell: the mailbox has room; ask: the actor cannot run, so Timeout),
+    //      directly on the ActorRef and through Box<dyn TellHandler> / Box<dyn AskHandler>
+    for erased in [false, true] {
+        let via = if erased { "a Box<dyn TellHandler>/Box<dyn AskHandler>" } else { "the ActorRef" };
+        note(format!("blocking (c2): blocking_tell / blocking_ask with a timeout called through {via} directly from async code on a current_thread runtime"));
         let (tx, rx) = std::sync::mpsc::channel();
         std::thread::spawn(move || {
             let rt1 = tokio::runtime::Builder::new_current_thread().enable_time().build().unwrap();
             let out = rt1.block_on(async {
                 let log = Arc::new(Mutex::new(vec![]));
                 let (r, _jh) = spawn_with_mailbox_capacity::<B>((log, 0), 4);
+                let th: Box<dyn rsactor::TellHandler<W>> = Box::new(r.clone());
+                let ah: Box<dyn rsactor::AskHandler<W, u32>> = Box::new(r.clone());
                 let t0 = Instant::now();
-                let a = std::panic::catch_unwind(std::panic::AssertUnwindSafe(|| r.blocking_tell(W(1), Some(Duration::from_millis(500))).is_ok()));
+                let a = std::panic::catch_unwind(std::panic::AssertUnwindSafe(|| {
+                    if erased { th.blocking_tell(W(1), Some(Duration::from_millis(500))).is_ok() } else { r.blocking_tell(W(1), Some(Duration::from_millis(500))).is_ok() }
+                }));
                 let ta = t0.elapsed();
                 let t1 = Instant::now();
-                let b = std::panic::catch_unwind(std::panic::AssertUnwindSafe(|| match r.blocking_ask(W(2), Some(Duration::from_millis(300))) {
-                    Ok(_) => "ok",
-                    Err(rsactor::Error::Timeout { .. }) => "timeout",
-                    Err(_) => "other",
+                let b = std::panic::catch_unwind(std::panic::AssertUnwindSafe(|| {
+                    let res = if erased { ah.blocking_ask(W(2), Some(Duration::from_millis(300))) } else { r.blocking_ask(W(2), Some(Duration::from_millis(300))) };
+                    match res {
+                        Ok(_) => "ok",
+                        Err(rsactor::Error::Timeout { .. }) => "timeout",
+                        Err(_) => "other",
+                    }
                 }));
                 let tb = t1.elapsed();
                 let _ = r.kill();
-                (a, ta, b, tb)
+                (a.map_err(|_| "panicked"), ta, b.map_err(|_| "panicked"), tb)
             });
             let _ = tx.send(out);
         });
         calls += 2;
+        let tag = if erased { "C16 C17" } else { "C17" };
         match rx.recv_timeout(Duration::from_secs(15)) {
             Ok((a, ta, b, tb)) => {
                 if !matches!(a, Ok(true)) || ta > Duration::from_millis(700) {
-                    rep.v("C17", format!("blocking_tell(.., Some(500 ms)) from async code on a current_thread runtime with a free mailbox: {a:?} after {ta:?} (expected Ok well within the deadline)"));
+                    rep.v(tag, format!("blocking_tell(.., Some(500 ms)) through {via} from async code on a current_thread runtime with a free mailbox: {a:?} after {ta:?} (expected Ok well within the deadline, and no panic)"));
                 }
                 if !matches!(b, Ok("timeout") | Ok("ok")) || tb > Duration::from_millis(600) {
-                    rep.v("C17 C10", format!("blocking_ask(.., Some(300 ms)) from async code on a current_thread runtime: {b:?} after {tb:?} (expected a result by the deadline)"));
+                    rep.v(&format!("{tag} C10"), format!("blocking_ask(.., Some(300 ms)) through {via} from async code on a current_thread runtime: {b:?} after {tb:?} (expected a result by the deadline, and no panic)"));
                 }
             }
-            Err(_) => rep.v("C17 C10", "blocking_tell / blocking_ask with a timeout called directly from async code on a current_thread runtime did not return within 15 s (deadlines 500 ms and 300 ms)".into()),
+            Err(_) => rep.v(&format!("{tag} C10"), format!("blocking_tell / blocking_ask with a timeout called through {via} directly from async code on a current_thread runtime did not return within 15 s (deadlines 500 ms and 300 ms)")),
         }
     }
     rep.s("blocking", format!("calls={calls}"));
@@ -966,6 +1167,13 @@ impl Actor for I {
         match out {
             'c' => Ok(true),
             'd' => Ok(false),
+            'k' => {
+                // a kill requested in the very poll in which the pass fails: the error decides the ending
+                if let Some(me) = w.upgrade() {
+                    let _ = me.kill();
+                }
+                Err("scripted on_run error (kill requested in the same poll)".into())
+            }
             _ => Err("scripted on_run error".into()),
         }
     }
@@ -1009,7 +1217,7 @@ fn idlewin_check(rep: &mut Report, what: &str, plan: &[(u32, char, bool)], log: 
             }
         }
     }
-    if let Some(e) = rets.iter().find(|r| r.1 == 'e').map(|r| r.0) {
+    if let Some(e) = rets.iter().find(|r| r.1 == 'e' || r.1 == 'k').map(|r| r.0) {
         if !log.iter().any(|l| l == "stop false") {
             rep.v("C08", format!("{what}: on_run pass {e} returned Err but on_stop(killed=false) did not run; log {log:?}"));
         }
@@ -1026,6 +1234,9 @@ fn idlewin(rep: &mut Report) {
         vec![(0, 'd', false)],
         vec![(1, 'c', false), (1, 'e', false)],
         vec![(0, 'c', true), (0, 'c', true), (0, 'e', true)],
+        vec![(0, 'k', false)],
+        vec![(0, 'c', true), (0, 'k', true)],
+        vec![(1, 'c', false), (0, 'k', false)],
         // a pass that fails without ever suspending: with senders it lands while some of them are parked
         // on the full mailbox (the freed slot is already promised to one of them)
         {
@@ -1080,7 +1291,7 @@ fn idlewin(rep: &mut Report) {
                         tokio::time::sleep(Duration::from_millis(5)).await;
                         let _ = tokio::time::timeout(Duration::from_secs(10), r.stop()).await;
                         let out = tokio::time::timeout(Duration::from_secs(10), jh).await;
-                        (served, out.map(|x| x.map(|res| (res.is_completed(), res.is_runtime_failed()))).map_err(|_| ()), true)
+                        (served, out.map(|x| x.map(|res| (res.is_completed(), res.is_runtime_failed(), res.was_killed()))).map_err(|_| ()), true)
                     });
                     let (res, senders_back) = ((res.0, res.1), res.2);
                     if !senders_back {
@@ -1092,11 +1303,14 @@ fn idlewin(rep: &mut Report) {
                     let l = log.lock().unwrap().clone();
                     let what = format!("idle window (cap {cap}, {} runtime, {senders} senders)", if multi { "multi-thread" } else { "current-thread" });
                     match res {
-                        (served, Ok(Ok((completed, run_failed)))) => {
+                        (served, Ok(Ok((completed, run_failed, was_killed)))) => {
                             idlewin_check(rep, &what, plan, &l, served);
-                            let has_err = l.iter().any(|x| x.starts_with("ret ") && x.ends_with(" e"));
+                            let has_err = l.iter().any(|x| x.starts_with("ret ") && (x.ends_with(" e") || x.ends_with(" k")));
                             if has_err && (completed || !run_failed) {
                                 rep.v("C08 C05", format!("{what}: on_run returned Err but the result is not an on_run failure; plan {plan:?}"));
+                            }
+                            if has_err && was_killed {
+                                rep.v("C08 C05", format!("{what}: on_run returned Err (the actor ends as failed after on_stop(killed=false)) but the result says killed; plan {plan:?}; log {l:?}"));
                             }
                             if !has_err && !completed {
                                 rep.v("C08 C05", format!("{what}: no on_run error but the actor did not complete; plan {plan:?}"));
@@ -1348,6 +1562,7 @@ fn main() {
             "hammer" => ("C01 C02 C03 C06", secs + 180),
             "askjoin" => ("C03", 180),
             "late" => ("C01 C10", 360),
+            "cancel" => ("C02 C01 C09 C07", 240),
             "blocking" => ("C17 C10 C03", 720),
             "ids" => ("C11", 120),
             "idlewin" => ("C08 C03", 900),
@@ -1370,6 +1585,7 @@ fn main() {
                     "hammer" => hammer(secs, &mut r),
                     "askjoin" => askjoin(&mut r),
                     "late" => late(&mut r),
+                    "cancel" => cancel(&mut r),
                     "blocking" => blocking(&mut r),
                     "ids" => ids(&mut r),
                     "idlewin" => idlewin(&mut r),
